@@ -9,6 +9,7 @@ package edns
 // (model: Edns.wire_opt, Edns.msg_opt, Edns.wire_opt_len) and the two are compared on the Go side.
 
 import (
+	"bytes"
 	"encoding/hex"
 	"encoding/json"
 	"fmt"
@@ -317,5 +318,28 @@ func TestVerifC05Edns(t *testing.T) {
 			"go_fail":    goFail,
 		})
 		f.Write(append(b, '\n'))
+
+		// the octets themselves: what WriteWire put behind the body it was handed (model:
+		// Edns.append_wire_opt = appendWireOPT over the translated internal/wire builders;
+		// specification: the RFC 6891 encoding of the record the library reads back)
+		if goFail == "" && len(uw.wire) >= len(body) && bytes.Equal(uw.wire[12:len(body)], body[12:]) {
+			edeB := "None"
+			if ede != nil {
+				edeB = fmt.Sprintf("(Some (%d%%N, %s))", ede.InfoCode, vC05L([]byte(ede.ExtraText)))
+			}
+			ar0, ar1 := int(body[10])<<8|int(body[11]), int(uw.wire[10])<<8|int(uw.wire[11])
+			b2, _ := json.Marshal(map[string]any{
+				"k":          kind + "/bytes",
+				"coq":        fmt.Sprintf("CaseOptBytes %s %s %s %d %d %s %s", w, srvS, edeB, ar0, ar1, wireRec, vC05L(uw.wire[len(body):])),
+				"desc":       map[string]any{"tail": hex.EncodeToString(uw.wire[len(body):]), "wire": wireKey, "arcount": []int{ar0, ar1}},
+				"nontrivial": !noedns,
+				"go_fail":    "",
+			})
+			f.Write(append(b2, '\n'))
+		} else if goFail == "" {
+			b2, _ := json.Marshal(map[string]any{"k": kind + "/bytes", "desc": map[string]any{"wire": hex.EncodeToString(uw.wire), "body": hex.EncodeToString(body)},
+				"nontrivial": true, "go_fail": "WriteWire changed the body it was handed (beyond the header counts)"})
+			f.Write(append(b2, '\n'))
+		}
 	}
 }
